@@ -318,9 +318,13 @@ def step (w : World) (ws : List String) : World × List String :=
   -- cfg_parse_fp() on a stream that cannot be read (a directory, a stream opened for writing): the input ends at once,
   -- with an error: reported under the stream's name at line 1, the parse fails, nothing else changes (fix F52: the
   -- generated scanner used to end the process)
-  | ["PSE", c, _] => withCtx c fun ci x =>
-      let out := parseStream orc (mkPEnv w x.dirs) x.cfg [] w.k
-      emitParse w ci x { out with rc := 1, diags := [⟨some fileName, 1, .other⟩] }
+  | ["PSE", c, kind] => withCtx c fun ci x =>
+      if kind == "2" then
+        -- the stream delivers `s = "abc` and then fails: the string is never closed
+        emitParse w ci x (parseStream orc (mkPEnv w x.dirs) x.cfg [115, 32, 61, 32, 34, 97, 98, 99] w.k)
+      else
+        let out := parseStream orc (mkPEnv w x.dirs) x.cfg [] w.k
+        emitParse w ci x { out with rc := 1, diags := [⟨some fileName, 1, .other⟩] }
   | ["PF", c, p] => withCtx c fun ci x => emitParse w ci x (parseFile orc (mkPEnv w x.dirs) x.cfg (bytesOfHex p) w.k)
   | "SL" :: c :: p :: vs => withCtx c fun ci x =>
       let ty := (optTyAt x.cfg (bytesOfHex p)).getD .int
